@@ -121,6 +121,32 @@ CLAIMED = {
  "C19": ("Coq proof (invariants over all runs of a labelled transition system of any number of concurrent send() calls with environment-chosen write/drain/callback outcomes) of a hand model of the repaired send() + kernel-evaluated trace correspondence with the four real clients on a virtual-time loop",
          "C19_exact / C19_exact_call (the packets written by one send are exactly the encoder's packets for its message, in order: all when completed, a prefix in flight or after a fault, none after a failed encoding), C19_contiguous / C19_writer_holds_lock (in EVERY run the writes of two sends do not interleave), C19_bad_message / C19_no_encoder (an encoding failure writes nothing and leaves state, writer, lock, reconnect trigger, status trace and every other send unchanged), C19_write_fault (a failing write/drain releases the lock, reports DISCONNECTED once unless CLOSED and creates a connect task). The encoder is a universally quantified state-passing function; SendProofs.unlocked_interleaves refutes contiguity for the code before fix 22721ce.",
          None, "DESIGN.md §5 C19"),
+
+ "C13": ("Coq proof of inductive invariants of a labelled transition system (hand model of ioclient.py: connect/_receive_loop/send/close/"
+         "_process_queue/_update_state, the four read behaviours, tenacity back-off) over ALL runs and schedules + kernel-evaluated "
+         "acceptance of labelled traces of the four real client classes under fault injection at every event-loop step",
+         "C13_fault_reported / C13_reconnect_never_lost / C13_reconnect_progress / C13_retry_delay / C13_retry_continues / C13_backoff / "
+         "C13_connect_succeeds / C13_connect_finishes / C13_single_receive_path / C13_never_monopolises hold for every client kind, every reachable "
+         "state and every run of any length of ClientLTS.v with the three repairs on; the defects F-eofspin and F-connect-lost are runs of the "
+         "same model with the repair off (C13_eofspin_as_it_was, C13_connect_lost_as_it_was). PARTIAL: safety only - 'eventually CONNECTED' "
+         "under a fair scheduler and an accepting gateway is not proved; what is proved is: a reconnect is always pending, its machinery is "
+         "never stuck, delays are in [0.5 s, 10 s] growing and capped, bursts without yielding are bounded by buffered bytes / queued "
+         "messages. Delivery after recovery is C12 on the new reader.",
+         "Trusted: Coq kernel + vm_compute; the hand model ClientLTS.v, tied by ~1200 (quick) / ~4400 (thorough) real sessions whose labelled "
+         "traces with state snapshots the kernel accepts; which awaits suspend, FIFO ready queue, cancellation (CPython 3.12 asyncio) "
+         "modelled not verified; tools/vloop.py (virtual-time loop, fake transports, block -> label). Theorems closed under the global context.",
+         "DESIGN.md §10.7"),
+ "C14": ("Coq proof of inductive invariants of the same labelled transition system over ALL runs and schedules + kernel-evaluated acceptance of "
+         "labelled traces of the four real clients with close() injected at every event-loop step x status callbacks that return/raise/are slow",
+         "C14_closed_absorbing / C14_link_shut_current / C14_link_shut_new / C14_after_close_returned / C14_background_tasks_finish / "
+         "C14_status_once_per_change / C14_status_trace_faithful / C14_status_trace_no_repeat / C14_callback_exception_harmless for every client "
+         "kind and every run; F-closerace is a run of the model with the repair off (C14_closerace_as_it_was). PARTIAL: (1) link shut up to a "
+         "serial port whose configuration drain() raised or is pending after close() (known finding close:link-open; full statement kept as "
+         "C14_link_shut_full); (2) after close() returned a receive task created by a connect() that was inside its status callback may exist "
+         "for one step (never reads); (3) send() coroutines are outside the termination measure; one close() call; no _seed_network_map.",
+         "Trusted: as C13; tools/props/c14.py oracle (state stays CLOSED, no attempt after CLOSED, no receive callback after close() returned, "
+         "writers closed, no pending task, status trace = state changes, raise/return differential). Theorems closed under the global context.",
+         "DESIGN.md §10.7"),
 }
 PENDING_REASON = "not claimed yet: model/theorems for this property are still being built (see DESIGN.md §9 build order)"
 
